@@ -10,6 +10,7 @@ import (
 	"fmt"
 	"net/url"
 	"sort"
+	"strings"
 	"time"
 
 	"github.com/getkin/kin-openapi/openapi3"
@@ -348,6 +349,83 @@ func lDirectedExtras(meta *Meta) {
 				if cb.Ref != "" && cb.Value == nil {
 					viol("extras:callback-cycle-left-unresolved", desc, "the operation's callback "+name+" ("+cb.Ref+") has no value although the document loaded")
 				}
+			}
+		}
+	}
+	// ---- whole-file elements in a sub-directory: a relative reference inside the file designates a
+	// file of that directory, not the same-named file beside the root ----
+	{
+		right := `{"type":"string","description":"right"}`
+		decoy := `{"type":"string","description":"decoy"}`
+		media := func(inner string) string { return `{"application/json":{"schema":` + inner + `}}` }
+		leafRef := `{"$ref":"leaf.json"}`
+		kinds := []struct {
+			kind, root, element string
+			leaf                func(d *openapi3.T) *openapi3.SchemaRef
+		}{
+			{"schema", `"components":{"schemas":{"S":{"$ref":"sub/el.json"}}}`, `{"type":"object","properties":{"p":` + leafRef + `}}`,
+				func(d *openapi3.T) *openapi3.SchemaRef { return d.Components.Schemas["S"].Value.Properties["p"] }},
+			{"parameter", `"components":{"parameters":{"P":{"$ref":"sub/el.json"}}}`, `{"name":"p","in":"query","schema":` + leafRef + `}`,
+				func(d *openapi3.T) *openapi3.SchemaRef { return d.Components.Parameters["P"].Value.Schema }},
+			{"header", `"components":{"headers":{"H":{"$ref":"sub/el.json"}}}`, `{"schema":` + leafRef + `}`,
+				func(d *openapi3.T) *openapi3.SchemaRef { return d.Components.Headers["H"].Value.Schema }},
+			{"requestBody", `"components":{"requestBodies":{"B":{"$ref":"sub/el.json"}}}`, `{"content":` + media(leafRef) + `}`,
+				func(d *openapi3.T) *openapi3.SchemaRef {
+					return d.Components.RequestBodies["B"].Value.Content["application/json"].Schema
+				}},
+			{"response", `"components":{"responses":{"R":{"$ref":"sub/el.json"}}}`, `{"description":"ok","content":` + media(leafRef) + `}`,
+				func(d *openapi3.T) *openapi3.SchemaRef {
+					return d.Components.Responses["R"].Value.Content["application/json"].Schema
+				}},
+			{"callback", `"components":{"callbacks":{"C":{"$ref":"sub/el.json"}}}`,
+				`{"{$request.body#/url}":{"post":{"requestBody":{"content":` + media(leafRef) + `},"responses":{"200":{"description":"ok"}}}}}`,
+				func(d *openapi3.T) *openapi3.SchemaRef {
+					return d.Components.Callbacks["C"].Value.Value("{$request.body#/url}").Post.RequestBody.Value.Content["application/json"].Schema
+				}},
+			{"operation-callback", `"paths":{"/s":{"post":{"responses":{"200":{"description":"ok"}},"callbacks":{"onEvent":{"$ref":"sub/el.json"}}}}}`,
+				`{"{$request.body#/url}":{"post":{"requestBody":{"content":` + media(leafRef) + `},"responses":{"200":{"description":"ok"}}}}}`,
+				func(d *openapi3.T) *openapi3.SchemaRef {
+					return d.Paths.Value("/s").Post.Callbacks["onEvent"].Value.Value("{$request.body#/url}").Post.RequestBody.Value.Content["application/json"].Schema
+				}},
+			{"path-item", `"paths":{"/s":{"$ref":"sub/el.json"}}`, `{"get":{"responses":{"200":{"description":"ok","content":` + media(leafRef) + `}}}}`,
+				func(d *openapi3.T) *openapi3.SchemaRef {
+					return d.Paths.Value("/s").Get.Responses.Value("200").Value.Content["application/json"].Schema
+				}},
+		}
+		for _, k := range kinds {
+			rootText := `{"openapi":"3.0.3","info":{"title":"r","version":"1"},` + k.root
+			if !strings.Contains(k.root, `"paths"`) {
+				rootText += `,"paths":{}`
+			}
+			rootText += `}`
+			store := map[string]string{"/api/root.json": rootText, "/api/sub/el.json": k.element, "/api/sub/leaf.json": right, "/api/leaf.json": decoy}
+			loader := openapi3.NewLoader()
+			loader.IsExternalRefsAllowed = true
+			loader.ReadFromURIFunc = func(_ *openapi3.Loader, u *url.URL) ([]byte, error) {
+				if d, ok := store[u.Path]; ok {
+					return []byte(d), nil
+				}
+				return nil, fmt.Errorf("not found: %s", u)
+			}
+			desc := map[string]any{"kind": k.kind, "files": store}
+			meta.Histogram["directed extras"]++
+			var doc *openapi3.T
+			var err error
+			if p := catchPanic(func() { doc, err = loader.LoadFromURI(&url.URL{Path: "/api/root.json"}) }); p != nil {
+				viol("extras:panic", desc, fmt.Sprint(p))
+				continue
+			}
+			if err != nil {
+				viol("extras:whole-file-element-in-a-sub-directory-does-not-load:"+k.kind, desc, err.Error())
+				continue
+			}
+			var leaf *openapi3.SchemaRef
+			if p := catchPanic(func() { leaf = k.leaf(doc) }); p != nil || leaf == nil || leaf.Value == nil {
+				viol("extras:whole-file-element-in-a-sub-directory-left-unresolved:"+k.kind, desc, fmt.Sprint("the reference inside the element has no value ", p))
+				continue
+			}
+			if leaf.Value.Description != "right" {
+				viol("extras:whole-file-element-in-a-sub-directory-resolves-beside-the-root:"+k.kind, desc, "leaf.json inside sub/el.json resolved to the object described as "+leaf.Value.Description)
 			}
 		}
 	}
